@@ -446,6 +446,10 @@ func verifModelBinaryWrite(w io.Writer, order binary.ByteOrder, data any) error 
 //@ func mergeStoredAndRemap$2 returns (keep)
 //@ thin
 //@ tags [C05,C09]
+// a value is filed under the number its field has in the MERGED field table (the input's own numbering differs
+// whenever the inputs list different fields)
+//@ local ensures fieldID == int(mapget(fieldsMap, field)) - 1 [C05]
+//@ local ensures keep <==> fieldID >= 0 [C05]
 //@ ensures keep && len(pos) > 0 && old(cap(posTemp)) >= len(pos) ==> base(posTemp) == old(base(posTemp)) && off(posTemp) == old(off(posTemp)) + len(pos) && cap(posTemp) == old(cap(posTemp)) - len(pos) [C05,C09]
 //@ end
 
@@ -813,7 +817,7 @@ func lemma1HitDiscriminator(docNum, normBits uint64) {
 //@ func (*synonymIndexOpaque).Reset returns (err)
 //@ thin
 //@ tags [C10]
-//@ ensures clean(so)
+//@ ensures clean(so) [C10,C12]
 // the pooled synonym bitmaps are emptied here (realloc hands them out again as they are)
 //@ loop 3 invariant 0 <= $k && so.Synonyms == old(so.Synonyms) && (forall j int :: {so.Synonyms[j]} 0 <= j && j < $k && j < len(so.Synonyms) ==> so.Synonyms[j] == old(so.Synonyms[j]) && (so.Synonyms[j] != nil ==> bm64Empty(so.Synonyms[j]))) [C10,C12]
 //@ ensures forall j int :: {old(so.Synonyms[j])} 0 <= j && j < old(len(so.Synonyms)) && old(so.Synonyms[j]) != nil ==> bm64Empty(old(so.Synonyms[j])) [C10,C12]
@@ -2165,9 +2169,12 @@ func lemmaSynonymCodeRoundTrip(synonymID, docID uint32) {
 // ---- C02: stored fields ----
 
 // the varint encoder passed to persistStoredFieldValues (a closure over a meta buffer): only its error matters here
+// ($metaCalls counts its calls, so that "every stored value gets its five-number meta record" can be stated)
+//@ ghost metaCalls none int
 //@ func persistStoredFieldValues.metaEncode(val) returns (n, err)
 //@ trusted
-//@ modifies nothing
+//@ modifies ghost metaCalls
+//@ ensures $metaCalls == old($metaCalls) + 1
 //@ end
 
 // writer side: nothing collected for one document is still in the per-document table when the next document's
@@ -2193,6 +2200,11 @@ func lemmaSynonymCodeRoundTrip(synonymID, docID uint32) {
 //@ assert persistStoredFieldValues.metaEncode#4 : int($val) == len(storedFieldValues[i])
 //@ assert persistStoredFieldValues.metaEncode#5 : int($val) == len(spf[i])
 //@ loop 1 invariant 0 <= i && i <= len(storedFieldValues) && curr - old(curr) == len(data) - old(len(data)) && curr >= old(curr)
+// every stored value - an empty one included - gets its meta record (field, type, offset, length, number of array
+// positions, then the positions): the reader reports values by walking these records
+//@ loop 1 invariant $metaCalls - old($metaCalls) >= 5 * i [C02]
+//@ loop 2 invariant $metaCalls - old($metaCalls) >= 5 * i + 5 [C02]
+//@ ensures err == nil ==> $metaCalls - old($metaCalls) >= 5 * len(storedFieldValues) [C02]
 //@ end
 
 // ---- C01: the builder's counting pass (realloc) and its fill pass (process) agree on what a token contributes ----
@@ -2631,6 +2643,9 @@ func lemmaSynonymCodeRoundTrip(synonymID, docID uint32) {
 // entries are parsed only up to a count that fits a non-negative int: the writer leaves no table at all for a thesaurus
 // whose definitions all died, and the varint found in its place (2^64-1) must not be taken for a count
 //@ loop 1 invariant i > 0 ==> numSyns <= 0x7fffffffffffffff && int(i) <= int(numSyns) [C12,C13]
+// one table entry = id varint, length varint, that many bytes: the term recorded for the id starts right behind the two
+// varints (each skipped by its own width) and the next entry right behind the term
+//@ loop 1 step prev(pos) <= 0x0fffffffffffffff && termLen <= 0x0fffffffffffffff ==> int(pos) == int(prev(pos)) + uvLen(row(mem), off(mem) + int(prev(pos))) + uvLen(row(mem), off(mem) + int(prev(pos)) + uvLen(row(mem), off(mem) + int(prev(pos)))) + int(termLen) [C09,C12]
 //@ end
 
 //@ func (*synonymIndexCache).insertLOCKED
